@@ -171,6 +171,9 @@ def prepare_config(cfg: dict, ctx: RunContext) -> dict:
         for key, val in list(opt["options"].items()):
             if isinstance(val, dict) and val.get("__np__") == "array":
                 opt["options"][key] = np.array(val["value"], dtype=val["dtype"]).reshape(val["shape"])
+            elif isinstance(val, dict) and "__rng__" in val:
+                # a seeded generator object given as an option value (SciPy accepts one wherever it accepts a seed)
+                opt["options"][key] = np.random.default_rng(val["__rng__"])
             elif isinstance(val, dict) and "__np__" in val:
                 opt["options"][key] = getattr(np, val["__np__"])(val["value"])
     return cfg
